@@ -468,3 +468,22 @@ package cose
 //@   loop 1 invariant bounds [C11]: 0 <= idx && idx <= len(m.Signatures) && len(m.Signatures) == len(verifiers) && m.Payload != nil
 //@   loop 1 invariant counted [C11]: vepoch() == old(vepoch()) + idx
 //@   loop 1 invariant prefix_ok [C11]: forall j Int :: 0 <= j && j < idx ==> sigVerified(m, j, verifiers[j], external)
+//@   callsite positional [C11] (*Signature).Verify#1: arg0 == m.Signatures[idx] && arg1 == verifiers[idx] && arg3 == m.Payload && arg4 == external && bytes(arg2) == ProtBytes(m.Headers)
+
+//@ func (*SignMessage).Sign
+//@   requires signers_nonnil: forall i Int :: 0 <= i && i < len(signers) ==> signers[i] != nil
+//@   requires distinct_slots: m != nil ==> (forall i Int, j Int :: 0 <= i && i < j && j < len(m.Signatures) ==> m.Signatures[i] != m.Signatures[j])
+//@   ensures all_or_error [C11, C20]: err == nil ==> m != nil && m.Payload != nil && len(m.Signatures) > 0 && len(m.Signatures) == len(signers)
+//@         && epoch() == old(epoch()) + len(m.Signatures)
+//@   ensures count [C11]: m != nil && len(m.Signatures) != len(signers) ==> err != nil && epoch() == old(epoch())
+//@   ensures precheck [C11, C20]: (m == nil || m.Payload == nil || len(m.Signatures) == 0) ==> err != nil && epoch() == old(epoch())
+//@   ensures shape_kept [C11, C20]: m != nil ==> m.Signatures == old(m.Signatures) && m.Payload == old(m.Payload)
+//@   loop 1 invariant bounds [C11, C20]: 0 <= idx && idx <= len(m.Signatures) && len(m.Signatures) == len(signers) && m.Payload != nil
+//@         && m.Signatures == old(m.Signatures) && m.Payload == old(m.Payload)
+//@   loop 1 invariant counted [C11, C20]: epoch() == old(epoch()) + idx
+//@   loop 1 invariant later_untouched [C11, C20]: forall j Int :: idx <= j && j < len(m.Signatures) && m.Signatures[j] != nil ==> m.Signatures[j].Signature == old(m.Signatures[j].Signature)
+//@   ensures err_slots [C11, C20]: m != nil && err != nil ==> epoch() - old(epoch()) <= len(m.Signatures)
+//@         && (forall j Int :: epoch() - old(epoch()) <= j && j < len(m.Signatures) && m.Signatures[j] != nil ==> m.Signatures[j].Signature == old(m.Signatures[j].Signature))
+//@   callsite positional [C11] (*Signature).Sign#1: arg0 == m.Signatures[idx] && arg2 == signers[idx] && arg4 == m.Payload && arg5 == external && arg3 == protected
+//@   callsite body_protected [C11, C02] (*Headers).MarshalProtected#1: arg0 == &m.Headers
+//@   modifies frame [C18]: anything
